@@ -24,7 +24,7 @@ Pass == [ok |-> TRUE, clause |-> "", at |-> 0]
 
 \* a recorded result <<nameIx, short, inum, dgroup, igroup, itype, data>> against a Decode record
 ResOK(res, exp) ==
-    /\ Names[res[1]] = exp.cls
+    /\ res[1] \in DOMAIN Names /\ Names[res[1]] = exp.cls      \* -1: the decoder raised
     /\ res[2] = exp.short /\ res[3] = exp.inum /\ res[4] = exp.dgroup /\ res[5] = exp.igroup
     /\ res[6] = exp.itype /\ res[7] = exp.data
 
